@@ -177,9 +177,10 @@ fn check_diagnostics(c: &Case, em: &Emitted, arms: &[Pat], t: &Truth, rep: &Repo
             if hits_uncovered == 0 {
                 return Err(mk("witness-is-covered", format!("witness `{wtxt}` denotes {hits_covered} values, all of them matched by some arm"), obs));
             }
-            if hits_covered == 0 {
-                nexact += 1;
+            if hits_covered > 0 {
+                return Err(mk("witness-partly-covered", format!("witness `{wtxt}` denotes {hits_uncovered} uncovered values but also {hits_covered} values that are matched by some arm"), obs));
             }
+            nexact += 1;
         }
     }
     // reachability
@@ -358,7 +359,7 @@ fn tape_hash(tape: &[u16]) -> u64 {
 pub fn run(ctx: &Ctx) {
     let mut ctx = ctx.clone();
     if std::env::var("VERIF_SHRINK").is_err() {
-        ctx.shrink_iters = 400;
+        ctx.shrink_iters = 100;
     }
     let ctx = &ctx;
     let rep = Report::new(
@@ -367,17 +368,18 @@ pub fn run(ctx: &Ctx) {
          (literals, u8 literal or-sets as runs / runs with a hole / boundaries 0 and 255 / full 0..=255 enumerations, consts, enum constructors, nested tuple and struct patterns incl. `..`, \
          or-patterns, wildcards, bindings; built either at random or as an exact partition of the type that is then perturbed by dropping / duplicating / swapping / inserting / merging arms); \
          oracle = brute-force enumeration of the value space: non-exhaustive error iff some value is uncovered, every printed witness parses as a pattern of the scrutinee type and denotes >=1 \
-         uncovered value, unreachable-arm warning on arm i iff no value has arm i as first match; run-time: compiled at O0 and O1, executed on the VM for sampled values (all if <=40), result = first matching arm \
+         value and only uncovered values, unreachable-arm warning on arm i iff no value has arm i as first match; run-time: compiled at O0 and O1, executed on the VM for sampled values (all if <=40), result = first matching arm \
          (+16*bound leaf variable); non-trivial = >=3 arms and at least one nested, or- or payload pattern; distinct by sha256 of the tape",
     );
     rep.assume("diagnostics are read from sway_core::compile_to_ast run in process with a pre-compiled std namespace (the path forc takes per package); arms are identified by the line of the warning span");
     rep.assume("u8 is the only integer scrutinee type (its value space can be enumerated); wider integers share the generic Range<T> code but are not generated");
     rep.assume("the surface syntax has no range patterns: ranges only occur in printed witnesses ([a...b], MIN, MAX), which are parsed");
-    rep.assume("witness check is existential: a witness must denote at least one uncovered value (the share of witnesses that denote only uncovered values is reported as class witness:exact)");
+    rep.assume("'the witness it reports is really uncovered' is read as: every printed witness is a pattern of the scrutinee type that denotes at least one value and only values matched by no arm");
     rep.assume("a non-exhaustive match cannot be executed; its run-time half is checked on the same arms followed by a final `_` arm");
     rep.assume("a compilation that does not terminate within 120 s ends the check as inconclusive (exit 2), not as a violation");
     crate::watch::spawn_watchdog("C14", 120);
-    let cases = ctx.cases(2000, 40_000);
+    corpus_check(&rep);
+    let cases = ctx.cases(1500, 40_000);
     let rt_every: u64 = 4;
     let out = run_prop(ctx, 14, cases, tape_strategy, |tape| {
         let h = tape_hash(tape);
@@ -427,6 +429,63 @@ pub fn run(ctx: &Ctx) {
     }
     vcore::fastc::drop_thread_fastc();
     rep.finish();
+}
+
+/// regression inputs of confirmed (and repaired) findings: corpus/C14/*.json = source + expected diagnostics + executions
+fn corpus_check(rep: &Report) {
+    let dir = verif_root().join("corpus/C14");
+    for f in walk_files(&dir, ".json") {
+        let Some(v) = read_to_string_lossy(&f).and_then(|t| serde_json::from_str::<Value>(&t).ok()) else { continue };
+        let Some(src) = v["src"].as_str() else { continue };
+        let name = f.file_name().map(|x| x.to_string_lossy().to_string()).unwrap_or_default();
+        rep.class("corpus_cases");
+        let d = diagnostics(src);
+        let want_ne: Vec<String> = v["non_exhaustive"].as_array().map(|a| a.iter().filter_map(|x| x.as_str().map(|s| s.to_string())).collect()).unwrap_or_default();
+        let mut want_un: Vec<usize> = v["unreachable_lines"].as_array().map(|a| a.iter().filter_map(|x| x.as_u64().map(|n| n as usize)).collect()).unwrap_or_default();
+        want_un.sort();
+        let mut got_un = d.unreachable_lines.clone();
+        got_un.sort();
+        got_un.dedup();
+        let mut problems = vec![];
+        if d.panic.is_some() || !d.internal.is_empty() || !d.other_errors.is_empty() {
+            problems.push(format!("unexpected errors: {:?} {:?} {:?}", d.panic, d.internal, d.other_errors));
+        }
+        if d.non_exhaustive != want_ne {
+            problems.push(format!("missing-pattern reports {:?}, expected {:?}", d.non_exhaustive, want_ne));
+        }
+        if got_un != want_un {
+            problems.push(format!("unreachable-arm warnings on lines {:?}, expected {:?}", got_un, want_un));
+        }
+        let runs = v["runs"].as_array().cloned().unwrap_or_default();
+        if problems.is_empty() && !runs.is_empty() {
+            for opt in [OptLevel::Opt0, OptLevel::Opt1] {
+                match with_fastc(400, |fc| catch(|| fc.compile(src, opt))) {
+                    Ok(Ok(c)) => {
+                        for r in &runs {
+                            let data = hex::decode(r["data"].as_str().unwrap_or("")).unwrap_or_default();
+                            let o = exec::run_script(&c.bytecode, &data);
+                            let got = match &o.end {
+                                End::Return(x) => Some(*x),
+                                End::ReturnData(d) if d.len() == 8 => Some(u64::from_be_bytes(d[..].try_into().unwrap())),
+                                _ => None,
+                            };
+                            if got != r["ret"].as_u64() {
+                                problems.push(format!("input {} returns {} instead of {}", r["data"], o.to_json()["end"], r["ret"]));
+                            }
+                        }
+                    }
+                    Ok(Err(f)) => problems.push(format!("does not compile: {:?}", f.errors.first())),
+                    Err(p) => {
+                        vcore::fastc::forget_thread_fastc();
+                        problems.push(format!("compiler panic {} {}", p.location, p.message));
+                    }
+                }
+            }
+        }
+        if !problems.is_empty() {
+            rep.violation(Violation { signature: format!("corpus:{name}"), summary: format!("regression input {name}: {}", problems.join("; ")), replay: json!({"corpus_file": f.display().to_string(), "src": src, "problems": problems}) });
+        }
+    }
 }
 
 pub fn dump(args: &[String]) {
